@@ -197,6 +197,19 @@ CLAIMS['C10'] = dict(
          'Does not decide chord-length accuracy (two-step bound), edges/corners/tangent rays or angular wrap numerics.',
     technique='guard dominance, accumulate/flush ordering on the structured CFG, index/axis agreement')
 
+CLAIMS['C12'] = dict(
+    text='Decides structural necessary conditions: with B = (b.x, b.y, b.z) the poloidal direction is (b.x, 0, b.z), the surface normal '
+         '(-b.z, 0, b.x) and the toroidal vector (0, 1, 0), so -- as exact polynomial identities -- the three are mutually orthogonal, '
+         'cross(poloidal, toroidal) = normal componentwise and dot(B, normal) = 0 (sign conventions); both unit vectors come from '
+         'normalise(); FluxCoordToCartesian uses the same two directions scaled to the prescribed poloidal and normal magnitudes and '
+         'returns poloidal + normal + toroidal componentwise; wiring: psi_normalised is (psi - psi_axis)/(psi_lcfs - psi_axis) '
+         'clamped with min = 0, map2d blends the outside value and IsoMapper2D(psi_normalised, profile) by inside_lcfs, map3d / '
+         'map_vector3d wrap the 2D result in the axisymmetric mappers, the LCFS mask is polygon > 0 and psi_n <= 1, b_r = -dpsi/dz/r, '
+         'b_z = dpsi/dr/r, b_t = f(psi_n)/r inside and the vacuum field outside. A differently composed but equivalent '
+         'implementation is reported as undecided, not as a violation. Does not decide interpolation accuracy, axisymmetry '
+         'numerically or the polygon mask.',
+    technique='exact vector algebra (dot/cross identities on component normal forms), constructor-tree wiring checks after def-use inlining')
+
 # ---- everything not claimed above is pending / not applicable
 _pending = 'check not built yet in this session (see DESIGN.md build order); not claimed until it is'
 for _p in ['C%02d' % i for i in range(1, 21)]:
